@@ -328,7 +328,7 @@ def unit_atheris(a):
             if len(t) < 600:
                 open(os.path.join(corpus, "seed%d" % i), "w", encoding="utf8", newline="").write(t)
     cmd = [sys.executable, "-X", "utf8", os.path.join(VERIF, "tools", "fuzz_c01.py"), corpus, "-runs=%d" % a["runs"], "-seed=%d" % (a["seed"] + a["shard"] + 1),
-           "-max_len=400", "-artifact_prefix=" + out + "/", "-print_final_stats=1", "-verbosity=0", "-rss_limit_mb=6000", "-timeout=300"]
+           "-max_len=400", "-artifact_prefix=" + out + "/", "-print_final_stats=1", "-verbosity=0", "-rss_limit_mb=6000", "-timeout=90"]
     env = dict(os.environ, VERIF_FUZZ_MODE=a["mode"])
     r = subprocess.run(cmd, capture_output=True, text=True, cwd=os.getcwd(), env=env, timeout=3600)
     execs = 0
